@@ -63,6 +63,13 @@ def bad(r):
     return r[0] == 'hang' or (r[0] == 'err' and r[1][0] != 'gfapy')
 
 
+# file and logging entry points (asked elsewhere or not a question of the state)
+GFA_SKIP = {'from_file', 'read_file', 'to_file', 'enable_progress_logging', 'info', 'GFA1Specific', 'GFA2Specific'}
+# F75: argument-less graph operations that raise builtin exceptions on ordinary graphs (half-ported code paths)
+F75_OPS = {'enforce_all_mandatory_links', 'randomly_orient_invertibles', 'randomly_orient_invertible', 'remove_p_bubbles',
+           'remove_p_bubble', 'split_connected_components', 'apply_copy_numbers', 'compute_copy_numbers'}
+F75_LINE_OPS = {'rm_first_item', 'rm_last_item'}
+
 FIELD_ALPHABET = ['', '*', 'A', '+', '1', 'A+', 'xx:i:1', '1M', 'a:b', '-1', 'A+,B-', '0$', 'xx:J:{', 'xx:B:i', 'VN:Z:1.0', 'A B', 'A+ B-']
 RTS = ['S', 'L', 'C', 'P', 'H', '#', 'E', 'G', 'F', 'O', 'U', 'X', '', 'SS', '1', '\n']
 
@@ -151,6 +158,20 @@ def line_calls(text, version, vlevel):
                 pass
         return True
     calls.append(('reads on Line(%r, version=%r, vlevel=%d)' % (text, version, vlevel), more))
+
+    def every_method():
+        # every public attribute and every public method that can be called without arguments, each on a copy of its own
+        # (methods that edit the line included): the answer is a value or an error of gfapy
+        from .c10 import zero_arg_names
+        l = g.Line(text, version=version, vlevel=vlevel)
+        for n, call in zero_arg_names(l, {'connect', 'disconnect', 'register_extension'}):
+            c = l.clone()
+            try:
+                getattr(c, n)() if call else getattr(c, n)
+            except g.Error:
+                pass
+        return True
+    calls.append(('every attribute and zero-argument method of Line(%r, version=%r, vlevel=%d)' % (text, version, vlevel), every_method))
 
     def connect():
         G = g.Gfa(version=version, vlevel=vlevel)
@@ -292,6 +313,15 @@ def doc_calls(rng, lines, version, vlevel, tmpdir):
                     except g.Error:
                         pass
         str(G)
+        for n in list(G.names)[:4]:
+            # by identifier, on a copy of the graph each time so that every line meets its removal with all the others present
+            G1 = add_all()
+            if not stale_refs(G1):
+                try:
+                    G1.rm(n)
+                except g.Error:
+                    pass
+                str(G1)
         for l in list(G.lines):
             if l.record_type != 'H' and l.is_connected() and rng.random() < 0.7:
                 try:
@@ -301,7 +331,60 @@ def doc_calls(rng, lines, version, vlevel, tmpdir):
         str(G)
         return True
     calls.append(('valid edits of connected lines, then removals', edit_then_remove))
+
+    def every_operation():
+        # every public attribute and argument-less method of the Gfa (graph operations included), each on a Gfa of its own;
+        # the operations recorded as F75 are left out here and probed separately
+        from .c10 import zero_arg_names
+        G0 = add_all()
+        if stale_refs(G0):
+            STALE_SEEN.append(True)
+            return True
+        for n, call in zero_arg_names(G0, GFA_SKIP | F75_OPS):
+            if n == 'merge_linear_paths' and G0.version == 'gfa2':
+                continue        # F75/F55: merging is a GFA1 operation
+            G = add_all()
+            try:
+                getattr(G, n)() if call else getattr(G, n)
+                str(G)
+            except g.Error:
+                pass
+            except Exception as e:
+                raise type(e)('%s: %s' % (n, e))
+        k = 0
+        for idx, l0 in enumerate(list(G0.lines)[:10]):
+            for n, call in zero_arg_names(l0, {'connect', 'register_extension'} | F75_LINE_OPS):
+                k += 1
+                if k % 3:
+                    continue
+                G = add_all()
+                ls = list(G.lines)
+                if idx >= len(ls):
+                    continue
+                try:
+                    getattr(ls[idx], n)() if call else getattr(ls[idx], n)
+                    str(G)
+                except g.Error:
+                    pass
+                except Exception as e:
+                    raise type(e)('%s.%s: %s' % (ls[idx].record_type, n, e))
+        return True
+    calls.append(('every attribute and argument-less method of the Gfa and of its lines', every_operation))
     return calls
+
+
+# hand-made documents with unusual shapes that run first: groups that list each other or themselves, a set over a set
+# over a set, a path that visits a segment twice, links and edges from a segment to itself, lines given twice
+SHAPES = [
+    ('gfa2', ['S\tx\t10\t*', 'U\ta\tb x', 'U\tb\ta']),
+    ('gfa2', ['S\tx\t10\t*', 'U\ta\ta x']),
+    ('gfa2', ['S\tx\t10\t*', 'U\ta\tb', 'U\tb\tc', 'U\tc\ta x']),
+    ('gfa2', ['S\tx\t10\t*', 'S\ty\t10\t*', 'E\te\tx+\ty+\t7\t10$\t0\t3\t*', 'O\ta\tb+ x+', 'O\tb\ta+ x+']),
+    ('gfa2', ['S\tx\t10\t*', 'E\t*\tx+\tx+\t7\t10$\t0\t3\t*', 'E\t*\tx+\tx+\t7\t10$\t0\t3\t*', 'E\te\tx+\tx-\t7\t10$\t7\t10$\t*',
+              'O\to\tx+ x+', 'U\tu\tx x e', 'F\tx\tx+\t0\t3\t0\t3\t*', 'G\tg\tx+\tx-\t3\t*']),
+    ('gfa1', ['S\tx\t*', 'L\tx\t+\tx\t+\t*', 'L\tx\t+\tx\t-\t*', 'C\tx\t+\tx\t+\t0\t*', 'P\tp\tx+,x+,x-\t*', 'P\tq\tx+\t*',
+              'P\tr\tx+,x+\t*,*']),
+]
 
 
 def py_of(case):
@@ -341,12 +424,16 @@ def run(ctx, deep, model_ok):
     tmpdir = tempfile.mkdtemp(prefix='c07', dir=os.path.join(core.VERIF, 'build')) if os.path.isdir(os.path.join(core.VERIF, 'build')) \
         else tempfile.mkdtemp(prefix='c07')
     try:
-        for i in range(300 if deep else 40):
+        for i in range(-len(SHAPES), 300 if deep else 40):
             version = 'gfa1' if i % 2 else 'gfa2'
-            lines, info = (gen.gen_gfa1(rng) if version == 'gfa1' else gen.gen_gfa2(rng))
-            for _ in range(rng.randint(1, 3)):
-                k = rng.randrange(len(lines))
-                lines[k] = mutate(rng, lines[k])
+            if i < 0:
+                version, lines = SHAPES[i + len(SHAPES)]
+                lines = list(lines)
+            else:
+                lines, info = (gen.gen_gfa1(rng) if version == 'gfa1' else gen.gen_gfa2(rng))
+                for _ in range(rng.randint(1, 3)):
+                    k = rng.randrange(len(lines))
+                    lines[k] = mutate(rng, lines[k])
             vlevel = rng.choice([0, 1, 2, 3])
             ver = rng.choice([version, version, None])
             for label, f in doc_calls(rng, lines, ver, vlevel, tmpdir):
@@ -370,6 +457,18 @@ def run(ctx, deep, model_ok):
         import shutil
         shutil.rmtree(tmpdir, ignore_errors=True)
     ctx.notes['outcomes'] = kinds
+    # F75: the argument-less graph operations known to raise builtin exceptions on an ordinary graph
+    g = impl.gfapy()
+    still = []
+    for n in sorted(F75_OPS):
+        G = g.Gfa(['S\ta\t*\tKC:i:10', 'S\tb\t*', 'S\tc\t*', 'L\ta\t+\tb\t+\t*', 'L\ta\t+\tc\t+\t*', 'L\tb\t+\tc\t-\t*'], version='gfa1')
+        from .c10 import zero_arg_names
+        if (n, True) in zero_arg_names(G, set()):
+            r = impl.outcome(lambda: getattr(G, n)())
+            if r[0] != 'ok' and r[1][0] != 'gfapy':
+                still.append('%s (%s)' % (n, r[1][1]))
+    if still:
+        ctx.known('F75', 'argument-less graph operations raise builtin exceptions on an ordinary graph: ' + ', '.join(still))
     if probe_f65():
         ctx.known('F65', "a failed add_line ('L 2 - <empty> - 2M' at level 0) leaves the half-connected link among the "
                          "back-references of segment 2; rm('2') then raises KeyError")
